@@ -1,5 +1,5 @@
 (* C09: the PEP 440 parser accepts exactly Appendix B and prints the normal form. *)
-From ZV Require Import Str Dec Rx RegexSrc Pep440 RegexEquiv Pep440Nf PepRoundTrip PepParseBack PepParseNf PepAccept.
+From ZV Require Import Str Dec Rx RegexSrc Pep440 RegexEquiv Pep440Nf PepRoundTrip PepParseBack PepParseNf PepAccept PepCapsSound.
 From RelationAlgebra Require regex.
 
 (* Tie 1, re-decided on every run: the source regex and Appendix B's regex denote the same language *)
@@ -69,6 +69,26 @@ Theorem c09_normal_form_equals_original : forall s v, pep_parse s = Some v ->
   exists v', pep_parse (pep_print v) = Some v' /\ pep_cmp v v' = Eq /\ pep_print v' = pep_print v.
 Proof. exact pep_normal_form_equal. Qed.
 
+(* EVERY NUMBER IS PRESERVED EXACTLY, whatever the spelling: the captures of an accepted string reconstruct it -
+   s = [v|V] [E!] N(.N)* [pre] [post] [dev] [+local], each optional piece being [sep] label [sep] [digits] (or -digits for post) with the
+   label in any case - and the numbers of the parsed value are the values (u32) of exactly those digit strings, an absent number of a
+   present label reading as 0 *)
+Theorem c09_captures_reconstruct_input : forall s k, pep_caps s = Some k ->
+  exists V PRE POST DEV,
+    s = V ++ (match k_epoch k with Some e => e ++ [c_bang] | None => [] end) ++ join_dot (k_release k) ++ PRE ++ POST ++ DEV
+          ++ (match k_local k with Some l => c_plus :: l | None => [] end) /\
+    (V = [] \/ V = [118%N] \/ V = [86%N]) /\ (match k_epoch k with Some e => dnum e | None => True end) /\
+    Forall dnum (k_release k) /\ k_release k <> [] /\ pre_cap_piece PRE (k_pre k) /\ post_cap_piece POST (k_post k) /\ dev_cap_piece DEV (k_dev k).
+Proof. exact caps_sound. Qed.
+
+Theorem c09_numbers_are_the_written_digits : forall s v, pep_parse s = Some v -> exists k, pep_caps s = Some k /\
+  map_opt_n num32 (k_release k) = Some (p_release v) /\
+  (match k_epoch k with Some e => num32 e = Some (p_epoch v) | None => p_epoch v = 0%N end) /\
+  (match k_pre k with Some (lab, n) => p_pre_label v = Some lab /\ num_of n (p_pre_num v) | None => p_pre_label v = None /\ p_pre_num v = None end) /\
+  (match k_post k with Some n => p_post_label v = true /\ num_of n (p_post_num v) | None => p_post_label v = false /\ p_post_num v = None end) /\
+  (match k_dev k with Some n => p_dev_label v = true /\ num_of n (p_dev_num v) | None => p_dev_label v = false /\ p_dev_num v = None end).
+Proof. exact parsed_numbers. Qed.
+
 Print Assumptions c09_regex_is_appendix_b.
 Print Assumptions c09_matcher_decides.
 Print Assumptions c09_accepts_iff.
@@ -79,3 +99,5 @@ Print Assumptions c09_normal_form_decidable.
 Print Assumptions c09_parser_returns_normal_form.
 Print Assumptions c09_normalising_idempotent.
 Print Assumptions c09_normal_form_equals_original.
+Print Assumptions c09_captures_reconstruct_input.
+Print Assumptions c09_numbers_are_the_written_digits.
